@@ -177,8 +177,10 @@ def check(ctx):
     ctx.attempt(forward.check_all, module_suffixes=('tract.tract', 'tract.tract_parse', 'plssdesc.plss_parse', 'plssdesc.plssdesc', 'trs.trs'))
     ctx.attempt(common.embedded_case_consistency, modules=('rgxlib.warnings',))
     ctx.attempt(common.clause_purity, [f for f in ctx.repo.funcs.values() if f.module.name.endswith(('trs.trs','tract.tract','plssdesc.plss_parse'))])
+    ctx.attempt(common.parallel_shapes, [f for f in ctx.repo.funcs.values() if f.module.name.endswith(('trs.trs','tract.tract','plssdesc.plss_parse'))])
     ctx.attempt(common.error_check_covers_all, ctx.repo.func('PLSSParser.check_error_tracts'))
     ctx.attempt(seed_guard)
+    ctx.attempt(common.config_words, plss=('parse_qq',))
 
 
 def _staging_tables(ctx):
